@@ -665,6 +665,73 @@ fn run_block2_probe(cx: &mut Ctx, shape: &ReqShape, m: usize, num: usize, szx: u
     report(cx, &sess, problems);
 }
 
+
+/// a transfer is completed (cache entry released, the key's state entry stays), then the same key
+/// asks for block `num > 0` at the size the first transfer used; the application answers with a
+/// reply that has grown (more option bytes, other body) and the request may carry a longer token:
+/// whatever the handler remembers of the first transfer, this reply must fit the budget (C10) and
+/// be cut at the size the reply names (C08)
+fn run_resume(cx: &mut Ctx, shape: &ReqShape, m: usize, szx: u8, body1: &[u8], body2: &[u8], grow: usize, tok2: Vec<u8>, num: usize) {
+    let mut sess = Session::new(m, 60000);
+    let mut problems: Vec<(&'static str, String)> = vec![];
+    // first transfer, run to completion
+    let o = sess.step(Op::Req(1, shape.spec(1, None, Some(bv_bytes(0, false, szx)), &[])));
+    if o.outcome == Outcome::Ok(false) {
+        let a = sess.step(Op::App(0x45, vec![], body1.to_vec()));
+        let mut used = a.resp.as_ref().and_then(|r| first_opt(r, 23)).and_then(|b| parse_bv(&b)).map(|x| x.2).unwrap_or(szx);
+        let mut more = a.outcome == Outcome::Ok(true);
+        let mut k = 1usize;
+        while more && k < 400 {
+            let r = sess.step(Op::Req(1, shape.spec(1 + k as u16, None, Some(bv_bytes(k, false, used)), &[])));
+            let b = r.resp.as_ref().and_then(|r| first_opt(r, 23)).and_then(|b| parse_bv(&b));
+            more = r.outcome == Outcome::Ok(true) && b.map(|x| x.1).unwrap_or(false);
+            if let Some(x) = b {
+                used = x.2;
+            }
+            k += 1;
+        }
+        // the resumed request
+        let mut shape2 = shape.clone();
+        shape2.tok = tok2;
+        let rq = shape2.spec(900, None, Some(bv_bytes(num, false, used)), &[]);
+        let ovq = overhead_of(&rq.build());
+        let o2 = sess.step(Op::Req(1, rq));
+        if o2.outcome == Outcome::Ok(false) {
+            let ropts = if grow > 0 { vec![(4u16, vec![0xE7; grow.min(8)]), (8u16, vec![0x6c; grow])] } else { vec![] };
+            let a2 = sess.step(Op::App(0x45, ropts.clone(), body2.to_vec()));
+            let ov = {
+                let mut p = Packet::new();
+                p.set_token(shape2.tok.clone());
+                for (n, v) in &ropts {
+                    p.add_option(CoapOption::from(*n), v.clone());
+                }
+                overhead_of(&p)
+            };
+            if m >= ov + 28 && m >= ovq + 28 && m <= 1280 {
+                if let (Outcome::Ok(_), Some(r)) = (&a2.outcome, &a2.resp) {
+                    let wl = r.to_bytes_unlimited().map(|b| b.len()).unwrap_or(usize::MAX);
+                    if wl > m {
+                        problems.push(("C10", format!("reply of {} bytes to a resumed Block2 request (block {}, size {}) exceeds the budget {}", wl, num, 16usize << used, m)));
+                    }
+                    if let Some((n, mo, sx)) = first_opt(r, 23).and_then(|b| parse_bv(&b)) {
+                        let sz = 16usize << sx;
+                        if sx > used || sx > 6 {
+                            problems.push(("C10", format!("size exponent {} chosen for a client asking {}", sx, used)));
+                        }
+                        let want: Vec<u8> = body2.iter().skip(n * sz).take(sz).cloned().collect();
+                        if r.payload != want || mo != ((n + 1) * sz < body2.len()) {
+                            problems.push(("C08", format!("resumed block {} (size {}) does not carry bytes {}.. of the application's reply / wrong more flag", n, sz, n * sz)));
+                        }
+                    }
+                } else if matches!(a2.outcome, Outcome::Panic) {
+                    problems.push(("C11", "intercept_response panicked".into()));
+                }
+            }
+        }
+    }
+    report(cx, &sess, problems);
+}
+
 /// upload whose second block carries more options than the first (same cache key): the size
 /// acknowledged for it must be negotiated against ITS overhead (C10)
 fn run_upload_growing(cx: &mut Ctx, shape: &ReqShape, m: usize, szx: u8, extra: usize, body: &[u8]) {
@@ -818,6 +885,16 @@ pub fn run_hostile(cx: &mut Ctx, rng: &mut Rng, shapes: &[ReqShape]) {
 pub struct Script {
     ep: u8,
     steps: Vec<(PktSpec, Option<(Vec<(u16, Vec<u8>)>, Vec<u8>)>)>, // request, app reply if it reaches the app
+    /// response code byte the application answers with (2.05 unless varied: what one transfer is
+    /// answered with must not matter to another)
+    pub app_code: u8,
+}
+
+impl Script {
+    pub fn with_code(mut self, c: u8) -> Script {
+        self.app_code = c;
+        self
+    }
 }
 
 fn run_script_ops(sess: &mut Session, sc: &Script, idx: usize) -> Vec<String> {
@@ -827,7 +904,7 @@ fn run_script_ops(sess: &mut Session, sc: &Script, idx: usize) -> Vec<String> {
     out.push(o.text.split(" K").next().unwrap_or("").to_string());
     if o.outcome == Outcome::Ok(false) {
         if let Some((opts, body)) = reply {
-            let a = sess.step(Op::App(0x45, opts.clone(), body.clone()));
+            let a = sess.step(Op::App(sc.app_code, opts.clone(), body.clone()));
             out.push(a.text.split(" K").next().unwrap_or("").to_string());
         }
     }
@@ -863,7 +940,7 @@ pub fn run_pipelined(cx: &mut Ctx, s1: &Script, s2: &Script, m: usize, second_fi
         let answer = |sess: &mut Session, sc: &Script, r: &StepOut, o: &mut Vec<String>| {
             if r.outcome == Outcome::Ok(false) {
                 if let Some((opts, body)) = &sc.steps[i].1 {
-                    let a = sess.step(Op::App(0x45, opts.clone(), body.clone()));
+                    let a = sess.step(Op::App(sc.app_code, opts.clone(), body.clone()));
                     o.push(short(&a.text));
                 }
             }
@@ -921,7 +998,7 @@ pub fn download_script(shape: &ReqShape, ep: u8, body: &[u8], szx: u8, midbase: 
         sh.tok = vec![midbase as u8, i as u8];
         steps.push((sh.spec(midbase + i as u16, None, Some(bv_bytes(i, false, szx)), &[]), Some((vec![], b"fresh".to_vec()))));
     }
-    Script { ep, steps }
+    Script { ep, steps, app_code: 0x45 }
 }
 
 pub fn upload_script(shape: &ReqShape, ep: u8, body: &[u8], szx: u8, midbase: u16) -> Script {
@@ -934,7 +1011,7 @@ pub fn upload_script(shape: &ReqShape, ep: u8, body: &[u8], szx: u8, midbase: u1
         sh.tok = vec![midbase as u8, 0x80 | i as u8];
         steps.push((sh.spec(midbase + i as u16, Some(bv_bytes(i, i + 1 < n, szx)), None, c), Some((vec![], b"done".to_vec()))));
     }
-    Script { ep, steps }
+    Script { ep, steps, app_code: 0x45 }
 }
 
 pub fn run_interleavings(cx: &mut Ctx, s1: &Script, s2: &Script, m: usize) {
@@ -1041,6 +1118,67 @@ pub fn run_lifetime(cx: &mut Ctx, rng: &mut Rng, shapes: &[ReqShape]) {
             }
             report(cx, &sess, problems);
         }
+    }
+}
+
+
+/// keep-alive: EVERY call for a key counts as a use – also an exact repetition of the previous block
+/// request, a request for an earlier block, or a duplicate upload block. A transfer whose consecutive
+/// calls are less than the expiry apart stays alive however long it takes in total (C20), and is
+/// still served from the cache / still reassembles the body (C08, C09)
+pub fn run_keepalive(cx: &mut Ctx, rng: &mut Rng, shapes: &[ReqShape]) {
+    let ttl = *rng.pick(&[1000u64, 60, 20]);
+    let m = 64usize;
+    let shape = &shapes[(rng.below(shapes.len() as u64)) as usize];
+    let gap = *rng.pick(&[ttl * 6 / 10, ttl - 1, ttl, ttl / 2 + 1]);
+    let patterns: [&[usize]; 5] = [&[1, 1, 2], &[1, 1, 1, 2, 2, 3], &[1, 2, 2, 3], &[2, 1, 1, 2, 3], &[1, 2, 1, 2, 3, 3, 4]];
+    let pat = patterns[rng.below(5) as usize];
+    // download
+    {
+        let mut sess = Session::new(m, ttl);
+        let mut problems: Vec<(&'static str, String)> = vec![];
+        let body = body_of(rng, 16 * 5 + 7);
+        sess.step(Op::Req(1, shape.spec(1, None, Some(bv_bytes(0, false, 0)), &[])));
+        let a = sess.step(Op::App(0x45, vec![], body.clone()));
+        // the budget must leave room for the requests themselves
+        let ovq = overhead_of(&shape.spec(1, None, Some(bv_bytes(4095, false, 0)), &[]).build());
+        if a.outcome == Outcome::Ok(true) && m >= ovq + 28 {
+            for (i, &num) in pat.iter().enumerate() {
+                sess.step(Op::Tick(gap));
+                if rng.chance(1, 3) {
+                    sess.step(Op::Req(2, shapes[0].spec(700 + i as u16, None, None, &[])));
+                }
+                let o = sess.step(Op::Req(1, shape.spec(10 + i as u16, None, Some(bv_bytes(num, false, 0)), &[])));
+                let want: Vec<u8> = body.iter().skip(num * 16).take(16).cloned().collect();
+                if o.outcome != Outcome::Ok(true) || o.resp.as_ref().map(|r| r.payload.clone()) != Some(want) {
+                    problems.push(("C20", format!("block {} requested {} ms after the previous call for this transfer (expiry {} ms) was not served from the cache: {}", num, gap, ttl, o.outcome.token())));
+                    break;
+                }
+            }
+        }
+        report(cx, &sess, problems);
+    }
+    // upload with duplicates
+    {
+        let mut sess = Session::new(1152, ttl);
+        let mut problems: Vec<(&'static str, String)> = vec![];
+        let body = body_of(rng, 16 * 3 + 5);
+        let seq: [usize; 7] = [0, 0, 1, 1, 1, 2, 3];
+        for (i, &num) in seq.iter().enumerate() {
+            if i > 0 {
+                sess.step(Op::Tick(gap));
+            }
+            let last = num == 3;
+            let chunk: Vec<u8> = body.iter().skip(num * 16).take(16).cloned().collect();
+            let o = sess.step(Op::Req(1, shape.spec(30 + i as u16, Some(bv_bytes(num, !last, 0)), None, &chunk)));
+            if !last && o.outcome != Outcome::Ok(true) {
+                problems.push(("C09", format!("non-final upload block {} was not answered by the handler: {}", num, o.outcome.token())));
+            }
+            if last && (o.outcome != Outcome::Ok(false) || o.req_payload != body) {
+                problems.push(("C20", format!("upload whose consecutive blocks were {} ms apart (expiry {} ms) did not deliver the body: {} bytes instead of {}", gap, ttl, o.req_payload.len(), body.len())));
+            }
+        }
+        report(cx, &sess, problems);
     }
 }
 
@@ -1236,6 +1374,21 @@ pub fn run(cx: &mut Ctx) {
             }
         }
     }
+    // a key whose transfer has completed asks for a later block again; the reply has grown
+    for shape in &shapes {
+        for &(m, szx) in &[(64usize, 1u8), (88, 2), (100, 2), (128, 2), (160, 3), (300, 4), (1152, 6)] {
+            for &grow in &[0usize, 6, 14, 30] {
+                for &num in &[1usize, 2] {
+                    for tok2 in [shape.tok.clone(), vec![0xC3; 8]] {
+                        let size = 16usize << szx;
+                        let body1 = body_of(&mut rng, 2 * size + 5);
+                        let body2 = body_of(&mut rng, 4 * size + 3);
+                        run_resume(cx, shape, m, szx, &body1, &body2, grow, tok2, num);
+                    }
+                }
+            }
+        }
+    }
     // uploads whose later block carries more options
     for shape in &shapes {
         for &(m, szx) in &[(100usize, 2u8), (128, 2), (200, 3), (300, 4), (1152, 6)] {
@@ -1377,15 +1530,36 @@ pub fn run(cx: &mut Ctx) {
 
     // ---- C. hostile traffic
     // directed: a rejected far-offset block in the middle of an upload must not disturb it
-    for (szx, far_num, far_szx) in [(0u8, 4095usize, 6u8), (1, 2000, 6), (0, 65535, 7), (2, 300, 6)] {
+    // … also when block 0 announced a total size (Size1 / Size2 / both, as a minimal uint) that covers the
+    // far block: an announcement is an estimate, not a licence to buffer
+    let announce: Vec<Vec<(u16, Vec<u8>)>> = vec![
+        vec![],
+        vec![(60, vec![0x01, 0x00, 0x00, 0x00])],
+        vec![(60, vec![0xFF, 0xFF, 0xFF, 0xFF])],
+        vec![(28, vec![0x08, 0x00, 0x00])],
+        vec![(60, vec![0x40, 0x00, 0x00]), (28, vec![0x40, 0x00, 0x00])],
+    ];
+    for (ai, (szx, far_num, far_szx)) in [(0u8, 4095usize, 6u8), (1, 2000, 6), (0, 65535, 7), (2, 300, 6), (6, 17, 6), (6, 18, 6), (6, 900, 6), (3, 140, 3), (4, 2000, 4)]
+        .iter()
+        .cloned()
+        .flat_map(|t| (0..5usize).map(move |a| (a, t)))
+    {
         let size = 16usize << szx;
         let body = body_of(&mut rng, 2 * size + 9);
-        let shape = &shapes[1];
+        let mut shape_a = shapes[1].clone();
+        shape_a.extra.extend(announce[ai].iter().cloned());
+        let shape = &shape_a;
         let mut sess = Session::new(1152, 60000);
         let mut problems: Vec<(&'static str, String)> = vec![];
         sess.step(Op::Req(1, shape.spec(1, Some(bv_bytes(0, true, szx)), None, &body[..size])));
         sess.step(Op::Req(1, shape.spec(2, Some(bv_bytes(1, true, szx)), None, &body[size..2 * size])));
         let h = sess.step(Op::Req(1, shape.spec(3, Some(bv_bytes(far_num, true, far_szx)), None, &[0xEE; 32])));
+        // exactly at the reserve (jump == 16 KiB) the block is legitimately accepted: boundary case,
+        // compared with the model only
+        if ((far_num + 1) * (16usize << far_szx)).saturating_sub(2 * size) <= 16384 {
+            report(cx, &sess, problems);
+            continue;
+        }
         if !matches!(h.outcome, Outcome::Herr(Some(c)) if c >= 0x80) {
             problems.push(("C11", format!("far-offset block {} was not rejected with a renderable error: {}", far_num, h.outcome.token())));
         }
@@ -1471,6 +1645,14 @@ pub fn run(cx: &mut Ctx) {
         for (s1, s2) in &pairs {
             run_interleavings(cx, s1, s2, 48);
         }
+        // what the application answers one transfer with (2.01 … 5.03) must not matter to the other
+        for (c1, c2) in [(0x45u8, 0x44u8), (0x45, 0x42), (0x44, 0x45), (0x42, 0x44), (0x45, 0x41), (0x45, 0x43), (0x45, 0x5f), (0x45, 0x84), (0x45, 0xa0), (0x84, 0x45)] {
+            let s1 = download_script(&base, 1, &body1, 0, 10).with_code(c1);
+            let s2 = upload_script(&ReqShape { code: if v.code == 1 { 3 } else { v.code }, ..v.clone() }, *ep2, &body2[..20], 0, 40).with_code(c2);
+            run_interleavings(cx, &s1, &s2, 48);
+            let s2 = download_script(v, *ep2, &body2[..20], 0, 40).with_code(c2);
+            run_interleavings(cx, &s1, &s2, 48);
+        }
         // the two transfers use the SAME message ids and tokens (ids and tokens are scoped per
         // endpoint; identical devices start with identical counters)
         let s1 = download_script(&base, 1, &body1, 0, 10);
@@ -1518,6 +1700,8 @@ pub fn run(cx: &mut Ctx) {
     // ---- E. cache lifetime under the deterministic clock
     for _ in 0..(if thorough { 40 } else { 8 }) {
         run_lifetime(cx, &mut rng, &shapes);
+        run_keepalive(cx, &mut rng, &shapes);
+        run_keepalive(cx, &mut rng, &shapes);
     }
     // retention with many intervening keys
     for n_other in [1usize, 50, 1100, 2000] {
